@@ -1,5 +1,6 @@
-"""Shared by the OP and SDVRP adapters: C06 on hand-built solutions (in addition to the generic single-fault
-corruptions of vt/envs/_base.py). Not an adapter itself (module name starts with '_')."""
+"""Shared by the OP, SDVRP and PCTSP/SPCTSP adapters: C06 on hand-built solutions (in addition to the generic single-fault
+corruptions of vt/envs/_base.py) and C03 on hand-built action lists and batches (`check_rewards`). Not an adapter itself
+(module name starts with '_')."""
 from __future__ import annotations
 
 import torch
@@ -8,10 +9,11 @@ from vt import envh
 from vt.common import cnatlist, cbool, coq_eval_shards
 
 
-def check_solutions(adapter, ctx, tier, triples, prefix):
+def check_solutions(adapter, ctx, tier, triples, prefix, batches=True):
     """triples: list of (item, kind, actions). Runs the REAL checker on each action list (one row), evaluates
-    adapter.sol_fn on (instance, actions, verdict) in Coq, reports concrete failures / disagreements.
-    Returns counters."""
+    adapter.sol_fn on (instance, actions, verdict) in Coq, reports concrete failures / disagreements; then
+    (batches=True) the same lists as rows of BATCHES handed to the real checker in one call
+    (RoutingAdapter.batched_checker).  Returns counters."""
     from vt.envprops import Item, CONCRETE
     cases, meta = [], []
     for it, kind, acts in triples:
@@ -53,4 +55,156 @@ def check_solutions(adapter, ctx, tier, triples, prefix):
                                 tag="corr-" + adapter.name)
         ctx.broken.append("correspondence C06/%s (%s solutions): %d disagreement(s); first: code %d on a '%s' solution, case file %s" % (
             adapter.name, prefix, nd, c, kind, path))
-    return {"c06_%s_solutions" % prefix: len(cases), "c06_%s_disagreements" % prefix: nd, "c06_%s_concrete" % prefix: nc}
+    out = {"c06_%s_solutions" % prefix: len(cases), "c06_%s_disagreements" % prefix: nd, "c06_%s_concrete" % prefix: nc}
+    if batches:
+        # together with the rows the generic corruption stream left for us (RoutingAdapter._defer_batches)
+        rows = list(getattr(adapter, "_c06_rows", None) or []) + [(it, kind, acts, v) for it, kind, acts, v in meta]
+        adapter._c06_rows = None
+        out.update(adapter.batched_checker(ctx, tier, rows, cap=(12 if tier == "quick" else 70)))
+    return out
+
+
+def check_rewards(adapter, ctx, tier, batches, prefix="handbuilt"):
+    """C03 on hand-built action lists (the mask-made episodes of the generic stream always end at the depot and are
+    handed to get_reward one rollout at a time; this stream reaches the branches they cannot: action lists that are not
+    closed by a depot visit, one-column action tensors, batches whose rows differ in kind).
+
+    batches: list of (kind, [(item, actions), ...]); the rows of one entry go into ONE call of the real
+    `env._get_reward` (same env, instances of equal shape, equally long action lists).  Only rows whose list the env's own
+    checker accepts (that row alone) are judged -- the reward of a non-solution means nothing; such a row is a batch-mate
+    only.  Specification side: the call either raises (counted; a refusal is not a wrong reward) or returns, for every
+    judged row, the objective of that row's own action list: each such row becomes a case of the adapter's Coq
+    `check_C03` (4 = reward differs from the objective, concrete; 5 = differs from the model of _get_reward).
+    Returns counters."""
+    from vt.envprops import Item, CONCRETE, DISAGREE, case_of, hexrow
+    fn = adapter.props.get("C03")
+    if not fn or adapter.reward_td != "reset":
+        return {}
+    cases, meta = [], []
+    n_raise = n_calls = 0
+    for kind, rows in batches:
+        rows = [(it, [int(a) for a in acts]) for it, acts in rows if acts]
+        if not rows or len({len(a) for _, a in rows}) != 1:
+            continue
+        env = rows[0][0].env
+        # rows that the env's own checker refuses are only batch-mates: their reward is not judged
+        judged = [envh.verdict(env, it.td_reset, torch.tensor([acts], dtype=torch.int64)) is not False for it, acts in rows]
+        if not any(judged):
+            ctx.count("%s/c03_%s/%s/not-a-solution(skipped)" % (adapter.name, prefix, kind))
+            continue
+        try:
+            td_b = torch.cat([it.td_reset for it, _ in rows], 0)
+        except Exception:      # noqa: BLE001
+            continue
+        actions = torch.tensor([a for _, a in rows], dtype=torch.int64)
+        n_calls += 1
+        try:
+            rew = env._get_reward(td_b, actions)
+            rew = [float(x) for x in rew.reshape(-1).tolist()]
+            if len(rew) != len(rows):
+                raise ValueError("reward of %d values for %d rows" % (len(rew), len(rows)))
+        except Exception as e:      # noqa: BLE001
+            n_raise += 1
+            ctx.count("%s/c03_%s/%s/get_reward-raised" % (adapter.name, prefix, kind))
+            continue
+        ctx.count("%s/c03_%s/%s/rows" % (adapter.name, prefix, kind), len(rows))
+        for r, (it, acts) in enumerate(rows):
+            if not judged[r]:
+                continue
+            ep = envh.Episode()
+            ep.steps = [([], a, False) for a in acts]
+            ep.final_mask = []
+            ep.reward = rew[r]
+            ep.complete = True
+            ep.checker = True
+            fake = Item(adapter, it.variant, env, it.td_in, it.td_reset, ep, dict(it.meta, solution_kind=kind),
+                        "solo" if len(rows) == 1 else "batch%d@%d" % (len(rows), r))
+            try:
+                cases.append(case_of(fake))
+            except ValueError:
+                continue
+            meta.append((fake, kind, rows, actions.tolist(), rew, r))
+    if not cases:
+        return {"c03_%s_calls" % prefix: n_calls, "c03_%s_raised" % prefix: n_raise}
+    codes = coq_eval_shards("cases_C03_%s_%s" % (adapter.name, prefix), adapter.header, adapter.case_type, fn, cases, shard=adapter.shard)
+    nd = nc = 0
+    first = None
+    for (fake, kind, rows, bacts, rew, r), c in zip(meta, codes):
+        ctx.seen({"e": adapter.name, "c03sol": fake.ep.actions, "k": kind, "b": bacts, "r": r,
+                  "i": str(sorted((k, fake.td_in[k].reshape(-1).tolist()) for k in fake.td_in.keys()))},
+                 nontrivial=len(fake.ep.actions) >= 2 or len(rows) >= 2)
+        if c == 0:
+            continue
+        tag = c % 1000
+        extra = {"code": c, "solution_kind": kind, "position": r, "batch_actions": bacts, "batch_rewards": rew,
+                 "batch_instances": [hexrow(it.td_in) for it, _ in rows],
+                 "how": "env._get_reward(cat(batch_instances after reset), batch_actions)[position] is impl_reward"}
+        if tag in CONCRETE:
+            nc += 1
+            ctx.failure(adapter.signature(fake, tag, c // 1000), fake.replay(dict(extra, what=CONCRETE[tag])), tag=adapter.name)
+        else:
+            nd += 1
+            first = first or (fake, c, extra)
+    if first:
+        fake, c, extra = first
+        path = ctx.write_replay(fake.replay(dict(extra, what="model/implementation disagreement: " + DISAGREE.get(c % 1000, "?"))),
+                                tag="corr-" + adapter.name)
+        ctx.broken.append("correspondence C03/%s (%s action lists): %d disagreement(s); first: code %d on a '%s' list, case file %s" % (
+            adapter.name, prefix, nd, c, first[2]["solution_kind"], path))
+    return {"c03_%s_calls" % prefix: n_calls, "c03_%s_raised" % prefix: n_raise, "c03_%s_rows" % prefix: len(cases),
+            "c03_%s_disagreements" % prefix: nd, "c03_%s_concrete" % prefix: nc}
+
+
+def reward_batches(rng, items, tier, one_column=True, cap=None):
+    """hand-built action lists for `check_rewards` from the distinct solo instances of [items] (depot = node 0,
+    customers 1..n): customers only (not closed), closed, closed + padding, via the depot; alone and as rows of one
+    batch next to a stranger of the same shape; and one-column action tensors [[0]], [[j]], [[0],[j]], [[j],[k]]."""
+    out = []
+    seen = {}
+    for it in items:
+        if it.batch != "solo":
+            continue
+        key = str(sorted((k, it.td_in[k].reshape(-1).tolist()) for k in it.td_in.keys()))
+        if key in seen:
+            continue
+        seen[key] = it
+    insts = list(seen.values())
+    rng.shuffle(insts)
+    cap = cap or (6 if tier == "quick" else 60)
+    by_shape = {}
+    for it in insts:
+        by_shape.setdefault((id(it.env), it.td_in["locs"].shape[1]), []).append(it)
+    # spread over the shapes (the small ones are where the degenerate branches live)
+    order = []
+    depth = 0
+    while len(order) < cap and any(len(v) > depth for v in by_shape.values()):
+        for k in sorted(by_shape, key=lambda q: q[1]):
+            if len(by_shape[k]) > depth and len(order) < cap:
+                order.append(by_shape[k][depth])
+        depth += 1
+    for it in order:
+        n = it.td_in["locs"].shape[1]
+        perm = rng.sample(range(1, n + 1), n)
+        k = rng.randint(1, n)
+        mates = [m for m in by_shape[(id(it.env), n)] if m is not it]
+        for kind, acts in (("all-customers-open", perm), ("all-customers-closed", perm + [0]), ("all-customers-padded", perm + [0, 0]),
+                           ("prefix-open", perm[:k]), ("prefix-closed", perm[:k] + [0])):
+            out.append((kind, [(it, acts)]))
+        if n >= 2:
+            out.append(("via-depot", [(it, perm[:1] + [0] + perm[1:])]))
+        if mates:
+            m = rng.choice(mates)
+            pm = rng.sample(range(1, n + 1), n)
+            out.append(("batch:open+closed", [(it, perm + [0]), (m, [0] + pm)]))
+            out.append(("batch:open+open", [(m, pm), (it, perm)]))
+        if one_column:
+            j = rng.randint(1, n)
+            out.append(("one-column:[0]", [(it, [0])]))
+            out.append(("one-column:[j]", [(it, [j])]))
+            if mates:
+                m = rng.choice(mates)
+                out.append(("one-column:[0],[j]", [(m, [0]), (it, [j])]))
+                out.append(("one-column:[j],[0]", [(it, [j]), (m, [0])]))
+                out.append(("one-column:[0],[0]", [(it, [0]), (m, [0])]))
+                out.append(("one-column:[j],[k]", [(it, [j]), (m, [rng.randint(1, n)])]))
+    return out
